@@ -940,8 +940,17 @@ class FunctionPlugin(PrimitivePlugin):
                 try:
                     capture_items.append((pname, _capture_const(value_for_capture)))
                 except Exception:
+                    # Values numpy cannot pack (e.g. ragged tuples) still have to
+                    # distinguish call sites: fingerprint them by type and repr.
                     capture_items.append(
-                        (pname, ("static", type(value_for_capture).__name__))
+                        (
+                            pname,
+                            (
+                                "static",
+                                type(value_for_capture).__name__,
+                                repr(value_for_capture),
+                            ),
+                        )
                     )
                 static_params[pname] = original_val
 
